@@ -49,3 +49,52 @@ PROPS["C10"] = {
 for fn in ("new", "ref", "unref", "unrefp", "size"):
     U("mem." + fn, src="units/mem.c", harness="h_mem_" + fn, enforce="m_mem_" + fn, logctx="MEM", props=["C10", "C04"],
       contract_files=["contracts/mem.contracts.h"], native=True, timeout=300, min_obligations=20, trace_defines=["V_MEM_MAX_LOG=10"])
+
+# =====================================================================================================
+# C12  queue / stack / list
+# =====================================================================================================
+PROPS["C12"] = {
+    "level": "proof",
+    "level_text": "All O(1) operations and every iterator step of queue.c, stack.c and list.c (30 functions) are verified against window contracts "
+                  "that give the exact new value of every field they may touch, for queues/stacks/lists of ANY length (len fully symbolic; nodes outside "
+                  "the window are unmaterialised and the checked assigns clause proves them untouched): FIFO append/remove, LIFO push/pop, splice/unlink at "
+                  "first/middle/last position, tail maintenance, destructor exactly once on the dropped element and never on a returned one, exact lengths. "
+                  "Cursor-walking functions (clear, free, iterate, list insert/remove/find) and the step from window contracts to the abstract sequence view "
+                  "are checked as bounded stand-ins on every container of <= K nodes against an array model (labelled bounded, counted separately).",
+    "level_note": "Trusted: CBMC + allocator stub; element destructor / comparator / iterate callbacks are stubs that only record their arguments "
+                  "(callbacks that re-enter the container are outside the contracts). Bounded part: K=4 (quick) / 6 (thorough) nodes, unwinding assertions on. "
+                  "The frame argument 'exact local transformation + untouched rest => abstract sequence equation' is written in the contract header, not machine-checked beyond K.",
+    "design_ref": "DESIGN.md 4 (C12), 2.5 idiom B/D",
+    "not_decided": ["callbacks (destructor, comparator, iterate callback) that modify the container they are called from",
+                    "cursor walks (clear/free/iterate/list insert/remove/find) beyond K nodes: bounded stand-in only"],
+    "explanation": "unbounded: code |= window contract for every O(1) operation and iterator step; bounded (K nodes): window contracts/real code |= array-model view, traversals",
+}
+for h, fn in (("new", "m_queue_new"), ("len", "m_queue_len"), ("enqueue", "m_queue_enqueue"), ("dequeue", "m_queue_dequeue"),
+              ("peek", "m_queue_peek"), ("remove", "m_queue_remove"), ("itr_new", "m_queue_itr_new"), ("itr_next", "m_queue_itr_next"),
+              ("itr_remove", "m_queue_itr_remove"), ("itr_get", "m_queue_itr_get_data"), ("itr_set", "m_queue_itr_set_data")):
+    U("q." + h, src="units/queue.c", harness="h_q_" + h, enforce=fn, logctx="STRUCTS", props=["C12", "C04"],
+      contract_files=["contracts/queue.contracts.h"], native=True, timeout=300, min_obligations=20)
+for h in ("clear", "iterate", "walk", "ops"):
+    U("qb." + h, src="units/queue.c", harness="h_qb_" + h, plain=True, logctx="STRUCTS", props=["C12", "C04"], bounded=True,
+      bound_note="every queue of <= K nodes, K=4 quick / 6 thorough; loops unwound K+3 with unwinding assertions",
+      defines_quick=["V_K=4"], defines_thorough=["V_K=6"], unwind=10, unwind_thorough=12, native=True,
+      contract_files=["contracts/queue.contracts.h"], timeout=600, timeout_thorough=3000, min_obligations=10)
+for h, fn in (("new", "m_stack_new"), ("len", "m_stack_len"), ("push", "m_stack_push"), ("pop", "m_stack_pop"),
+              ("peek", "m_stack_peek"), ("remove", "m_stack_remove"), ("itr_new", "m_stack_itr_new"), ("itr_next", "m_stack_itr_next"),
+              ("itr_remove", "m_stack_itr_remove"), ("itr_get", "m_stack_itr_get_data"), ("itr_set", "m_stack_itr_set_data")):
+    U("s." + h, src="units/stack.c", harness="h_s_" + h, enforce=fn, logctx="STRUCTS", props=["C12", "C04"],
+      contract_files=["contracts/stack.contracts.h"], native=True, timeout=300, min_obligations=20)
+for h in ("clear", "iterate", "walk", "ops"):
+    U("sb." + h, src="units/stack.c", harness="h_sb_" + h, plain=True, logctx="STRUCTS", props=["C12", "C04"], bounded=True,
+      bound_note="every stack of <= K nodes, K=4 quick / 6 thorough; loops unwound K+6 with unwinding assertions",
+      defines_quick=["V_K=4"], defines_thorough=["V_K=6"], unwind=10, unwind_thorough=12, native=True,
+      contract_files=["contracts/stack.contracts.h"], timeout=600, timeout_thorough=3000, min_obligations=10)
+for h, fn in (("new", "m_list_new"), ("len", "m_list_len"), ("itr_new", "m_list_itr_new"), ("itr_next", "m_list_itr_next"),
+              ("itr_get", "m_list_itr_get_data"), ("itr_set", "m_list_itr_set_data"), ("itr_insert", "m_list_itr_insert"), ("itr_remove", "m_list_itr_remove")):
+    U("l." + h, src="units/list.c", harness="h_l_" + h, enforce=fn, logctx="STRUCTS", props=["C12", "C04"],
+      contract_files=["contracts/list.contracts.h"], native=True, timeout=300, min_obligations=20)
+for h in ("clear", "insert", "remove", "iterate", "walk"):
+    U("lb." + h, src="units/list.c", harness="h_lb_" + h, plain=True, logctx="STRUCTS", props=["C12", "C04"], bounded=True,
+      bound_note="every list of <= K nodes (keys in 0..3, duplicates allowed, with and without comparator), K=4 quick / 6 thorough; loops unwound K+6",
+      defines_quick=["V_K=4"], defines_thorough=["V_K=6"], unwind=10, unwind_thorough=12, native=True,
+      contract_files=["contracts/list.contracts.h"], timeout=600, timeout_thorough=3000, min_obligations=10)
